@@ -77,6 +77,46 @@ Theorem C13_matcher_key_unfixed_refuted : forall quote,
 Proof. exact matcher_key_unfixed_collision. Qed.
 Print Assumptions C13_matcher_key_unfixed_refuted.
 
+(* The matchers cache under concurrent lookups (LruMatchersCache.GetOrSet: singleflight around
+   "LRU hit, else convert and store"). Lookups are items; events issue a lookup or let a running
+   conversion return. If the singleflight key and the LRU key separate the different items of
+   the history, then for EVERY interleaving every lookup that returns gets the matcher of ITS
+   item ... *)
+Theorem C13_inflight_own_item : forall sfk lruk items,
+  (forall a b, In a items -> In b items -> sfk a = sfk b -> a = b) ->
+  (forall a b, In a items -> In b items -> lruk a = lruk b -> a = b) ->
+  forall evs i r, f_ls (frun sfk lruk items evs) i = LDone r -> nth_error items i = Some r.
+Proof. exact inflight_own_item. Qed.
+Print Assumptions C13_inflight_own_item.
+
+(* ... and only then: whenever the singleflight key conflates two items, the interleaving
+   "issue 0, issue 1, conversion 0 returns" answers lookup 1 with item 0, whatever the LRU key. *)
+Theorem C13_inflight_conflated_refuted : forall sfk lruk m0 m1, sfk m0 = sfk m1 ->
+  f_ls (frun sfk lruk [m0; m1] [FBegin 0; FBegin 1; FFinish 0]) 1 = LDone m0.
+Proof. exact inflight_conflated. Qed.
+Print Assumptions C13_inflight_conflated_refuted.
+
+(* the code's key (C13_matcher_key_inj: injective) used for both purposes (C13_get_or_set_keys):
+   the results the check compares with the real cache are each lookup's own item *)
+Theorem C13_inflight_results : forall items evs i r,
+  nth_error (flight_results flight_key flight_key items evs) i = Some (Some r) -> nth_error items i = Some r.
+Proof. exact flight_results_own. Qed.
+Print Assumptions C13_inflight_results.
+
+(* Tie T: the singleflight key, the LRU lookup key and the LRU store key are one expression *)
+Theorem C13_get_or_set_keys :
+  getOrSetKeys = ["key := cacheKey(m)"; "c.sf.Do(key)"; "c.cache.Get(key)"; "c.cache.Add(key)"]%string.
+Proof. exact get_or_set_keys. Qed.
+Print Assumptions C13_get_or_set_keys.
+
+Example C13_inflight_nonvacuous :
+  let a := mkM MRe [106] [120] in let b := mkM MNre [105] [120] in
+  flight_results flight_key flight_key [a; b; a] [FBegin 0; FBegin 1; FFinish 1; FFinish 0; FBegin 2] = [Some a; Some b; Some a] /\
+  flight_codes flight_key flight_key [a; b; a] [FBegin 0; FBegin 1; FFinish 1; FFinish 0; FBegin 2] = [1; 1; 3; 3; 3] /\
+  (* a key made of the value alone: lookup 1 waits for lookup 0 and is answered with a *)
+  flight_results mvalue flight_key [a; b] [FBegin 0; FBegin 1; FFinish 0] = [Some a; Some a].
+Proof. vm_compute. repeat split; reflexivity. Qed.
+
 (* Tie T. *)
 Theorem C13_source_shape :
   cacheKeyStringAssigns =
